@@ -234,6 +234,7 @@ class Walker:
         fork_returns: bool = False,
         symbols: Dict[str, str] = None,
         merge_loops: bool = False,
+        sticky=None,
         max_paths: int = 400000,
         max_depth: int = 4,
         unroll: int = 2,
@@ -247,6 +248,8 @@ class Walker:
         self.expr_value = expr_value
         self.fork_returns = fork_returns
         self.merge_loops = merge_loops
+        # assumptions that no assignment can invalidate: call atoms (`x.m()`), plus any key listed in `sticky`
+        self.sticky = set(sticky or ())
         self.symbols = symbols or {}
         self.max_paths = max_paths
         self.max_depth = max_depth
@@ -371,6 +374,8 @@ class Walker:
         key = norm(target)
         for k in list(st.facts):
             if k == key or _mentions(k, key):
+                if k in self.assumptions and (k in self.sticky or (k.endswith(")") and k != key)):
+                    continue
                 del st.facts[k]
 
     def _bind(self, st: State, target, val: AVal, node=None, defexpr=None):
@@ -1130,6 +1135,8 @@ class Walker:
             is_self_call = target.bound_cls is not None
             if is_self_call and written:
                 for k in list(s.facts):
+                    if k in self.assumptions and (k in self.sticky or k.endswith(")")):
+                        continue
                     for w in written:
                         if k == w or _mentions(k, w):
                             del s.facts[k]
